@@ -845,6 +845,71 @@ def run(ck: Check):
         if not same:
             ck.violation(dict(clause="own-parameters", scenario="callback-reused", detector=nb_), dict(what="a permutation callback used with one detector and then attached to another builds the second detector's null distribution differently from a new callback", first=na, first_args=kwa, second=nb_, second_args=kwb, random_state=rs, X_ref=X.tolist(), X_test=Y.tolist(), p_reused=float(l2["p_value"]), p_new=float(l3["p_value"]), null_reused=[float(x) for x in l2["permuted_statistics"][:6]], null_new=[float(x) for x in l3["permuted_statistics"][:6]]))
 
+    # ---- several callback OBJECTS alive at once (two on one detector with different methods, then another detector with its
+    # own): each callback's logs are its own - the p-value of ITS method over ITS null statistics -, and are not rewritten
+    # by a later compare elsewhere.  And a parameter assigned through the public setter BETWEEN fit() and compare(): the null
+    # distribution is built with the parameters compare itself uses (own generator, continued)
+    def _lg(l):
+        return (float(l["observed_statistic"]), [float(x) for x in l["permuted_statistics"]], float(l["p_value"]))
+
+    def _same_lg(a, b_):
+        return eqf(a[0], b_[0]) and len(a[1]) == len(b_[1]) and all(eqf(x, y) for x, y in zip(a[1], b_[1])) and eqf(a[2], b_[2])
+
+    for name_, kw_ in (("PSI", dict(num_bins=6)), ("EMD", dict())):
+        X = np.array([prng.gauss(0, 1) for _ in range(13)])
+        Y = np.array([prng.gauss(0.6, 1.2) for _ in range(10)])
+        rs = prng.randrange(1, 1000)
+        try:
+            ca, cb2 = _PT(num_permutations=15, random_state=rs, method="conservative", name="A"), _PT(num_permutations=9, random_state=rs + 1, method="estimate", name="B")
+            d = det_class(name_)(callbacks=[ca, cb2], **kw_)
+            d.fit(X=X)
+            _, lg = d.compare(X=Y)
+            la, lb = _lg(lg["A"]), _lg(lg["B"])
+            cc = _PT(num_permutations=7, random_state=rs + 2, method="conservative", name="C")
+            other = det_class("EnergyDistance")(callbacks=[cc])
+            other.fit(X=Y)
+            other.compare(X=X)
+            la_after, lb_after = _lg(ca.logs), _lg(cb2.logs)
+            sa = det_class(name_)(callbacks=[_PT(num_permutations=15, random_state=rs, method="conservative", name="A")], **kw_)
+            sa.fit(X=X)
+            la_single = _lg(sa.compare(X=Y)[1]["A"])
+            sb = det_class(name_)(callbacks=[_PT(num_permutations=9, random_state=rs + 1, method="estimate", name="B")], **kw_)
+            sb.fit(X=X)
+            lb_single = _lg(sb.compare(X=Y)[1]["B"])
+        except Exception as e:  # noqa: BLE001
+            ck.violation(dict(clause="raises", scenario="several-callbacks", detector=name_), dict(detector=name_, error=repr(e), X_ref=X.tolist(), X_test=Y.tolist()))
+            continue
+        ck.case(dict(kind="several-callbacks-alive", detector=name_), nontrivial=True, key=repr(("several", name_, X.tolist())))
+        ck.count("several_callbacks_cases")
+        for nm, got, want, why in (("A", la, la_single, "two callbacks on one detector"), ("B", lb, lb_single, "two callbacks on one detector"),
+                                   ("A", la_after, la_single, "after another detector with its own callback ran"), ("B", lb_after, lb_single, "after another detector with its own callback ran")):
+            if not _same_lg(got, want):
+                ck.violation(dict(clause="p-value-formula", scenario="several-callbacks", callback=nm, detector=name_),
+                             dict(what=f"with several permutation callbacks alive ({why}) the logs of callback {nm} are not those of that callback used alone (its own method, number of permutations and random_state)", detector=name_, args=kw_, random_state=rs, X_ref=X.tolist(), X_test=Y.tolist(),
+                                  p=got[2], p_alone=want[2], num_null=len(got[1]), num_null_alone=len(want[1])))
+                break
+    for name_, nb0, nb1 in (("PSI", 9, 4), ("HellingerDistance", 3, 8)):
+        X = np.array([prng.gauss(0, 1) for _ in range(16)])
+        Y = np.array([prng.gauss(0.9, 1.0) for _ in range(12)])
+        rs = prng.randrange(1, 1000)
+        try:
+            d = det_class(name_)(num_bins=nb0, callbacks=[_PT(num_permutations=12, random_state=rs, name="perm")])
+            d.fit(X=X)
+            d.num_bins = nb1
+            got = _lg(d.compare(X=Y)[1]["perm"])
+            f = det_class(name_)(num_bins=nb1, callbacks=[_PT(num_permutations=12, random_state=rs, name="perm")])
+            f.fit(X=X)
+            want = _lg(f.compare(X=Y)[1]["perm"])
+        except Exception as e:  # noqa: BLE001
+            ck.violation(dict(clause="raises", scenario="setter-between-fit-and-compare", detector=name_), dict(detector=name_, error=repr(e)))
+            continue
+        ck.case(dict(kind="setter-between-fit-and-compare", detector=name_, num_bins=[nb0, nb1]), nontrivial=True, key=repr(("setfc", name_, nb0, nb1)))
+        ck.count("setter_between_fit_and_compare_cases")
+        if not _same_lg(got, want):
+            ck.violation(dict(clause="own-parameters", scenario="setter-between-fit-and-compare", detector=name_),
+                         dict(what="num_bins assigned between fit() and compare(): the callback's null statistics / p-value are not those of a detector constructed with the new value", detector=name_, num_bins_at_fit=nb0, num_bins_at_compare=nb1, random_state=rs,
+                              X_ref=X.tolist(), X_test=Y.tolist(), observed=got[0], observed_expected=want[0], null=got[1][:6], null_expected=want[1][:6], p=got[2], p_expected=want[2]))
+
     # ---- D
     ck.rule("D: num_jobs in {1,2,3} (and -1 once per detector in thorough) and a repeated run, fixed random_state (0 over-represented: a legal seed), the global generator left in a different state before every run: observed, every null statistic and the p-value must be identical")
     for name in ALL:
